@@ -3387,8 +3387,8 @@ func (m *Machine) Export() (*Serialized, Schema, error) {
 // into a machine which has already produces transitions and/or
 // has telemetry connected (use [Machine.SetSchema] instead).
 func (m *Machine) Import(data *Serialized) error {
-	m.activeStatesMx.RLock()
-	defer m.activeStatesMx.RUnlock()
+	m.activeStatesMx.Lock()
+	defer m.activeStatesMx.Unlock()
 	m.queueMx.RLock()
 	defer m.queueMx.RUnlock()
 	m.schemaMx.Lock()
